@@ -1,6 +1,6 @@
 """C18 — GraphBuilder / nn.Module naming."""
 # BuilderBase.call_op partitions its arguments with param_manipulation.separate_input_attributes_from_arguments (contract shared with C01)
-MODULES = ["contracts.c18_builder", "contracts.c12_autocast", "contracts.c01_calling:separate"]
+MODULES = ["contracts.c18_builder", "contracts.c12_autocast", "contracts.c01_calling:separate", "contracts.c18_nn_tree"]
 
 
 def INCLUDE(name):
